@@ -407,8 +407,7 @@ def run_check(prop, tier, seed):
   # harness does not fit the tree under test and nothing is claimed.
   run_errors = sorted(set(e.replace('run det:', 'run ') for e in run_errors))
   total_runs = sum(a['runs'] for a in agg.values()) + len(run_errors)
-  if len(run_errors) > max(2, total_runs // 500):
-    harness_errors.extend(run_errors)
+  too_many_run_errors = len(run_errors) > max(2, total_runs // 500)
 
   # ---- violations: shrink, replay, classify ------------------------------
   findings = core.load_known_findings()
@@ -444,6 +443,13 @@ def run_check(prop, tier, seed):
     else:
       reported.append((cls, path, rep, len(vs)))
 
+  # Too many runs in which the harness raised: nothing can be said about the
+  # runs that were not explored -- unless a violation was minimised and
+  # CONFIRMED by replay in a fresh interpreter: that is a fact about the tree
+  # whatever happened in other runs (a library that hands out a stale series
+  # may well trip the model elsewhere too), and it is reported.
+  if too_many_run_errors and not reported:
+    harness_errors.extend(run_errors)
   # ---- evidence -----------------------------------------------------------
   wall = time.time() - t0
   evidence = build_evidence(prop, tier, seed, spec, agg, wall, len(violations),
